@@ -689,6 +689,12 @@ def invocation_variants(rep, cls, jobs, rng, n=12):
             # ... onto a path that already holds something longer (an earlier, larger output): it must be replaced
             open(outp + "c", "wb").write(b"#SHAPE=<3>\n" + b"9 " * 60000 + b"\n")
             variants.append(("-o onto an existing longer file", [sub] + opts + ["-o", outp + "c"], data, outp + "c"))
+            # ... and onto the INPUT file itself (converting / folding a spectrum in place): the input is read in full before
+            # the output is created, so this must give the same bytes, by either spelling and argument order
+            io1, io2 = os.path.join(d, "inplace_%d" % k), os.path.join(d, "inplace_%db" % k)
+            open(io1, "wb").write(data); open(io2, "wb").write(data)
+            variants.append(("-o onto the input file itself", [sub] + opts + ["-o", io1, io1], b"", io1))
+            variants.append(("--output onto the input file itself, path first", [sub, io2] + rev + ["--output", io2], b"", io2))
         for name, av, din, outfile in variants:
             allj.append((av, din)); meta.append((k, name, outfile))
     res = run_cli_many(allj)
